@@ -5,11 +5,13 @@ the real `format_commonmark` byte for byte. What is proved for all inputs: the d
 (code span, fence) can never be closed by their own content, the escape decision of `outc` covers
 the characters it claims, `table_escape` guards every pipe. What is NOT provable - because it is
 false on the pinned tree - is kept visible as counterexample theorems: characters `outc` leaves
-raw, the container prefix lost after a literal block, the ordered-list marker width computed from
-the already incremented number.
+raw, the container prefix lost after a literal block. (The ordered-list marker width computed from
+the already incremented number and the space-padded `%{:2X}` were repaired in /repo; their
+counterexample theorems became `item_exit_restores_prefix` and `pct2X_wellformed`.)
 -/
 import Comrak.Cm
 import Comrak.Lemmas.Cm
+import Comrak.Lemmas.CmFrame
 import Comrak.Lemmas.Escape
 namespace Comrak.C07
 open Comrak Bytes Comrak.Cm
@@ -142,7 +144,7 @@ theorem outc_escapes_specials :
   · intro c bc fd nx h
     rcases h with h | h | h | h | h <;> subst h <;> simp [outcBytes, needsEscape, isPunct, isSpace]
 
-example : outcBytes 0x2A .normal false false 0x61 = [0x5C, 0x2A] ∧ outcBytes 0x09 .url false false 0 = [0x25, 0x20, 0x39]
+example : outcBytes 0x2A .normal false false 0x61 = [0x5C, 0x2A] ∧ outcBytes 0x09 .url false false 0 = [0x25, 0x30, 0x39]
     ∧ outcBytes 0x01 .normal false false 0 = [0x26, 0x23, 0x31, 0x3B] := by decide
 
 /-- What the decision does NOT cover (each is the seed of a listed finding): `~` (strikethrough),
@@ -190,16 +192,43 @@ theorem cm_prefix_after_literal_counterexample :
       [0x3E, 0x20, 0x0A, 0x3E, 0x20, 0x0A, 0x3E, 0x20, 0x20, 0x20, 0x20, 0x20, 0x63, 0x6F, 0x64, 0x65, 0x0A, 0x0A, 0x3E, 0x20, 0x70, 0x0A] := by
   decide +kernel
 
-/-- `9. a` / `10. b` inside a block quote: on leaving the first item the marker width is computed
-    from the already incremented number (`10. ` = 4 instead of `9. ` = 3), one byte too many is
-    cut from the prefix, and every later line of the quote is written with `>` instead of `> `. -/
+/-- The percent-encoding of a byte is `%` and two upper-case hex digits: it contains no white
+    space and decodes (`hexVal?`) back to the byte. (With the `{:2X}` format of the pinned tree
+    bytes below 16 were written `% 9`, which is not an escape and contains a space; repaired.) -/
+theorem pct2X_wellformed (c : UInt8) :
+    (∀ b ∈ pct2X c, isSpace b = false) ∧
+    pct2X c = [0x25, hexDigit (c >>> 4), hexDigit (c &&& 0xF)] ∧
+    hexVal? (hexDigit (c >>> 4)) = some (c >>> 4) ∧ hexVal? (hexDigit (c &&& 0xF)) = some (c &&& 0xF) := by
+  have h : ∀ c : UInt8, ((pct2X c).all (fun b => !isSpace b) = true) ∧
+      hexVal? (hexDigit (c >>> 4)) = some (c >>> 4) ∧ hexVal? (hexDigit (c &&& 0xF)) = some (c &&& 0xF) :=
+    forall_uint8_of_fin (by decide +kernel)
+  refine ⟨?_, rfl, (h c).2.1, (h c).2.2⟩
+  intro b hb
+  have := List.all_eq_true.mp (h c).1 b hb
+  simpa using this
+
+/-- Leaving a list item removes from the prefix exactly what entering it added, for every list
+    kind, number, `ol_width` and state, whatever was written in between (anything that, like
+    `output`, leaves prefix and list stack alone: `output_frame`). On the pinned tree this was false
+    at a digit boundary (`9.` -> `10.`): the exit marker was computed from the incremented number. -/
+theorem item_exit_restores_prefix (o : CmOpts) (ep ep' : Bool) (pl : NList) (s : Nat) (st st2 : St)
+    (h : SameFrame (fmtItem o ep pl s true st) st2) :
+    (fmtItem o ep' pl s false st2).prefix_ = st.prefix_ :=
+  fmtItem_exit_restores_prefix o ep ep' pl s st st2 h
+
+/-- Every write leaves the container prefix and the ordered-list stack as they were. -/
+theorem output_keeps_frame (o : CmOpts) (e : Bool) (st : St) (b : Bytes) (w : Bool) (esc : Esc) :
+    (output o e st b w esc).prefix_ = st.prefix_ ∧ (output o e st b w esc).olStack = st.olStack :=
+  output_frame o e st b w esc
+
+/-- `9. a` / `10. b` inside a block quote (the former failing input): every line keeps `> `. -/
 def quoteNineTen : Tree :=
   let l : NList := { ty := .ordered, start := 9, tight := true }
   .node .document {} (.cons (.node .blockQuote {} (.cons (.node (.list l) {}
     (.cons (.node (.item l) {} (.cons (para [0x61]) .nil)) (.cons (.node (.item l) {} (.cons (para [0x62]) .nil)) .nil))) .nil)) .nil)
 
-theorem cm_ol_marker_width_counterexample :
-    renderCm {} quoteNineTen = [0x3E, 0x20, 0x39, 0x2E, 0x20, 0x61, 0x0A, 0x3E, 0x31, 0x30, 0x2E, 0x20, 0x62, 0x0A] := by
+example :
+    renderCm {} quoteNineTen = [0x3E, 0x20, 0x39, 0x2E, 0x20, 0x61, 0x0A, 0x3E, 0x20, 0x31, 0x30, 0x2E, 0x20, 0x62, 0x0A] := by
   decide +kernel
 
 end Comrak.C07
